@@ -282,6 +282,8 @@ class _Exporter:
         self._name_remappings: list[dict[str, str]] = []
         self.skip_initializers = skip_initializers
         self.skipped_initializers: dict[str, onnx.TensorProto] = {}
+        # (domain, name) of the model-local functions, which are exported as script functions.
+        self._local_functions: set[tuple[str, str]] = set()
 
     def _handle_attrname_conflict(self, renamer):
         """Add ref-attr-name-conflict handling logic to renaming function."""
@@ -601,9 +603,13 @@ class _Exporter:
                 f"{sindent}{self._translate_onnx_var(node.output[0])} = "
                 f"{(f' {ops[node.op_type]} ').join(map(self._translate_onnx_var_ref, node.input))}"
             )
-        callee_name = self._make_callee_name(
-            node.domain, opsets[node.domain], node.op_type, node=True
-        )
+        if (node.domain, node.op_type) in self._local_functions:
+            # Call the exported script function itself, so that to_model_proto() includes it.
+            callee_name = self._make_callee_name(node.domain, 1, node.op_type)
+        else:
+            callee_name = self._make_callee_name(
+                node.domain, opsets[node.domain], node.op_type, node=True
+            )
         attributes_str = self._translate_attributes(node)
         if len(node.input) > 0 and len(attributes_str) > 0:
             attributes_str = f", {attributes_str}"
@@ -824,6 +830,7 @@ def make_model_with_random_weights():
         add(self._import_onnx_types(proto))
 
         if isinstance(proto, ModelProto):
+            self._local_functions = {(f.domain, f.name) for f in proto.functions}
             translated_functions = [self._translate_function(f) for f in proto.functions]
             translated_functions.append(self._translate_graph(proto, function_name))
         else:
